@@ -4,7 +4,7 @@ import gen_c07
 
 K = dict(KEY_NEW=1, KEY_FREE=2, SUBMIT=3, CQE_MORE=4, CQE_FINAL=5, SET_RESULT=6, TAKE=41, RESET=42, DEALLOC=43,
          REL_DEALLOC=44, GUARD=45, GUARD_LEAK=46, POP=47, POP_EMPTY=48, GUARD_DROP=49, NEW_RING=50,
-         NEW_FALLBACK=51, RELEASED=52, RING_ADD=53, ENTER=27, ENTER_RETURN=28, U_AWAIT=108, U_AWAITED=109, U_GOT=101, U_DROP=102, U_WRAP=107)
+         NEW_FALLBACK=51, RELEASED=52, RING_ADD=53, ENTER=27, ENTER_RETURN=28, KSEL=54, U_AWAIT=108, U_AWAITED=109, U_GOT=101, U_DROP=102, U_WRAP=107)
 E_BUSY, E_UNSUPPORTED, E_INVALID = 1, 2, 3
 
 
@@ -25,6 +25,25 @@ def malformed(out):
         return True
     m = out[1 + 3 * n]
     return len(out) != 2 + 3 * n + 6 * m
+
+
+def creators_of(case):
+    """slot -> the step that created it (slots are created in program order until the runtime is dropped)"""
+    cr = []
+    for i in range(case[3]):
+        o, a, b = case[4 + 3 * i: 7 + 3 * i]
+        if o == 10:
+            break
+        if o in (1, 2, 11, 12, 14, 17, 18):
+            cr.append((o, a, b))
+    return cr
+
+
+def failing_slot(case, slot):
+    """reads on the failing descriptors (directory, write-only file, /proc/self/mem) and multishot reads at an
+    offset may answer any OS error"""
+    cr = creators_of(case)
+    return slot < len(cr) and (cr[slot][1] >= 6 or cr[slot][0] == 17)
 
 
 def oracle(case, out):
@@ -62,7 +81,7 @@ def oracle(case, out):
                 return "dropped a handle that was not live (id %d)" % o[1]
             del live[o[1]]
         elif tag == 3:
-            if o[2] not in (E_BUSY, E_INVALID):
+            if o[2] not in (E_BUSY, E_INVALID) and not failing_slot(case, o[1]):
                 return "unexpected error kind %d from a managed read" % o[2]
         elif tag == 4:
             probed = True
@@ -88,13 +107,8 @@ def oracle(case, out):
     user_live = set()
     aw = None
     # slot -> the step that created it (slots are created in program order until the runtime is dropped)
-    creators = []
-    for i in range(case[3]):
-        o, a, b = case[4 + 3 * i: 7 + 3 * i]
-        if o == 10:
-            break
-        if o in (1, 2, 11, 12, 14):
-            creators.append((o, a, b))
+    creators = creators_of(case)
+    unacc = None       # (event index, id): the kernel consumed this id for the completion being reaped
 
     def einval_expected(slot):
         # a multishot read with a length on a pipe is refused by io_uring (EINVAL) whatever the pool holds
@@ -113,6 +127,13 @@ def oracle(case, out):
             if a != nbuf:
                 return "pool created with %d buffers, expected %d" % (a, nbuf)
             state = {i: "in" for i in range(a)}
+        if unacc is not None and k in (K["KSEL"], K["ENTER"], K["KEY_FREE"], K["U_AWAITED"], K["RELEASED"]):
+            return ("event %d: the kernel consumed buffer %d from the ring for a completion and nothing took it "
+                    "over: it is neither in the ring nor with any holder (the pool shrank)" % unacc)
+        if k == K["KSEL"]:
+            if state.get(a) != "in" or a in selected:
+                return "event %d: a completion carries buffer %d, which is %s" % (idx, a, state.get(a))
+            unacc = (idx, a)
         elif k == K["U_GOT"]:
             user_live.add(a)
         elif k == K["U_DROP"]:
@@ -122,6 +143,13 @@ def oracle(case, out):
                       all_held=created and not released and len(user_live) == nbuf, avail=bool(avail()))
         elif k == K["U_AWAITED"] and aw is not None:
             outcome, err = a, b & 0xff
+            good_read = (aw["slot"] < len(creators) and creators[aw["slot"]][0] == 1
+                         and creators[aw["slot"]][1] == 0)
+            if good_read and not user_live and not selected and created and not released and outcome != 1 \
+                    and all(st == "in" for st in state.values()):
+                return ("event %d: no handle is alive and no operation holds a buffer, yet a managed read of a "
+                        "good file (slot %d) did not get one (outcome %d, error kind %d): the pool shrank"
+                        % (idx, aw["slot"], outcome, err))
             if aw["all_held"] and (aw["pending"] or drv == 1):
                 if outcome == 0:
                     return ("event %d: next() on slot %d did not resolve within the watchdog although the consumer "
@@ -143,6 +171,8 @@ def oracle(case, out):
                 return "event %d: buffer %d taken while %s" % (idx, a, state.get(a))
             state[a] = "out"
             selected.discard(a)
+            if unacc is not None and unacc[1] == a:
+                unacc = None
         elif k == K["RESET"]:
             if state.get(a) != "out":
                 return "event %d: buffer %d returned to the pool while %s (double return)" % (idx, a, state.get(a))
@@ -174,12 +204,17 @@ def oracle(case, out):
                 kavail.discard(bid)
             if k == K["GUARD"]:
                 selected.add(bid)
+                if unacc is not None and unacc[1] == bid:
+                    unacc = None
         elif k == K["POP_EMPTY"]:
             if avail() and not released:
                 return "event %d: exhaustion reported while buffers %s were available" % (idx, sorted(avail()))
         elif k == K["SET_RESULT"] and b == 2 and drv == 0:
             if kavail and not released:
                 return "event %d: ENOBUFS while buffers %s were in the ring" % (idx, sorted(kavail))
+    if unacc is not None:
+        return ("event %d: the kernel consumed buffer %d from the ring for a completion and nothing took it over"
+                % unacc)
     if created:
         bad = {i: st for i, st in state.items() if st != "dead"}
         if bad:
@@ -205,7 +240,9 @@ class C07(diffcheck.DiffProp):
     rule = ("programs of managed reads / multishot streams (read, recv, recv_from; files, pipes, TCP, UDP, Unix "
             "sockets) with harness-controlled arrival, polls, holds, handle drops, future/stream drops, peer close, "
             "runtime drop with handles outliving it; consumers that hold every buffer and keep awaiting next() of a "
-            "runtime-level multishot stream under a round budget, then release and continue; pool sizes 1..16, buffer lengths 1..64 (192/256 for "
+            "runtime-level multishot stream under a round budget, then release and continue; managed reads that FAIL "
+            "after the kernel consumed a ring buffer (directory, write-only file, /proc/self/mem; at an offset and at "
+            "the cursor; multishot variants; EOF) interleaved with good reads, cancels and held handles; pool sizes 1..16, buffer lengths 1..64 (192/256 for "
             "recvmsg multishot); io_uring ring and polling-driver fallback pool; every program ends with a probe "
             "of how many buffers can be obtained; non-trivial = a buffer reached the user and went back; "
             "distinct = distinct programs")
